@@ -334,6 +334,11 @@ func servePrincipalPropfind(w http.ResponseWriter, r *http.Request, options *Ser
 	}
 
 	// TODO: handle Depth and more properties
+	if s := r.Header.Get("Depth"); s != "" {
+		if _, err := internal.ParseDepth(s); err != nil {
+			return &internal.HTTPError{Code: http.StatusBadRequest, Err: err}
+		}
+	}
 
 	for _, homeSet := range options.HomeSets {
 		hs := homeSet // capture variable for closure
